@@ -52,7 +52,6 @@ def r2_symmetric_inputs(cx):
         t = hi.blocks[ci]["term"]
         r = deep_root(hi, t["args"][1])
         ok = r is not None and any(e["k"] == "downcast" and e.get("v") in ("Ping", "Pong") for e in r.get("p", []))
-        ok = ok or (r is not None and hi.local_name(r["l"]) == "algorithms")
         cx.check("peer-list-from-message", ok, site_of(hi, ci), "the peer's list given to select_algorithm is the one carried by the received ping/pong")
     # per-cipher score = minimum of own and peer speed
     found = False
@@ -227,6 +226,14 @@ def r5_wire_id_tables(cx):
     # decoder: switch on the id byte inside the algorithms part
     dec = {}
     dec_plain = set()
+    # the boolean local that becomes Algorithms.allow_unencrypted of the decoded message
+    plain_locals = set()
+    for (b2, bi2, s2) in aggregates(prog, "Algorithms"):
+        if b2.did == rf.did:
+            rv2 = s2["rv"]
+            r2 = op_root(rf, rv2["ops"][rv2["fields"].index("allow_unencrypted")])
+            if r2 is not None:
+                plain_locals.add(r2["l"])
     for sb in rf.cfg.reach:
         tt = rf.blocks[sb]["term"]
         if tt["k"] != "switch" or len(tt["values"]) < 3:
@@ -254,7 +261,7 @@ def r5_wire_id_tables(cx):
                                 cur = {"k": "copy", "place": o[2]["rv"]["place"]}
                                 continue
                             break
-                    if s2["k"] == "assign" and s2["rv"]["k"] == "use" and op_const(s2["rv"]["op"]) == 1 and rf.local_name(s2["place"]["l"]) == "allow_unencrypted":
+                    if s2["k"] == "assign" and s2["rv"]["k"] == "use" and op_const(s2["rv"]["op"]) == 1 and s2["place"]["l"] in plain_locals and not s2["place"].get("p"):
                         plain_here.add(v)
         if statics:
             dec = statics
